@@ -972,6 +972,26 @@ class Interp:
             return {ast.Lt: a < b, ast.LtE: a <= b, ast.Gt: a > b, ast.GtE: a >= b}[type(op)]
         if isinstance(a, Opaque) or isinstance(b, Opaque):
             return self.atom(f"cmp:{type(op).__name__}:{a!r}:{b!r}")
+        def family(v):
+            if v is None:
+                return "none"
+            if isinstance(v, (bool, int, float, Num)):
+                return "number"
+            if isinstance(v, (str, Render, SymStr, SymChar)):
+                return "str"
+            if isinstance(v, Lst):
+                return "set" if getattr(v, "is_set", False) else "list"
+            if isinstance(v, Tup):
+                return "tuple"
+            if isinstance(v, Dct):
+                return "dict"
+            if isinstance(v, (Node, Rec)):
+                return "object"
+            return None
+        fa_, fb_ = family(a), family(b)
+        if fa_ is not None and fb_ is not None and (fa_ != fb_ or fa_ in ("none", "dict", "object")):
+            # ordering between unrelated built-in kinds (list > int, None < 3, str >= 2 ...) is a TypeError in Python 3
+            raise AbsRaise("TypeError", self.site, f"'{type(op).__name__}' not supported between {fa_} and {fb_}")
         raise Unsupported(f"comparison {type(op).__name__} of {a!r} and {b!r} at {self.site}")
 
     def _identical(self, a, b) -> bool:
@@ -1929,6 +1949,19 @@ class Interp:
         return cache[cinfo.name]
 
     def _bad_attr(self, obj, attr):
+        import builtins as _b
+        py = {bool: bool, int: int, float: float, str: str}.get(type(obj))
+        if isinstance(obj, Lst):
+            py = set if getattr(obj, "is_set", False) else list
+        elif isinstance(obj, Tup) and obj.cls is None:
+            py = tuple
+        elif isinstance(obj, Dct):
+            py = dict
+        elif isinstance(obj, Num):
+            py = float
+        if py is not None and not hasattr(py, attr):
+            # a plain Python value without such an attribute: AttributeError, as at run time
+            raise AbsRaise("AttributeError", self.site, f"'{py.__name__}' object has no attribute '{attr}'")
         raise Unsupported(f"attribute {attr} of {obj!r} at {self.site}")
 
     def _class_name_of(self, v) -> str:
@@ -2548,6 +2581,39 @@ class Interp:
                 return Num(("mod", ta, tb))
         if isinstance(a, Opaque) or isinstance(b, Opaque):
             return Opaque(f"binop:{type(op).__name__}")
+        # containers / nodes / objects combined with an operator Python does not define for them: TypeError
+        def shape(v):
+            if isinstance(v, Lst):
+                return set() if getattr(v, "is_set", False) else []
+            if isinstance(v, Tup):
+                return ()
+            if isinstance(v, Dct):
+                return {}
+            if isinstance(v, (str, Render, SymStr, SymChar)):
+                return "s"
+            if isinstance(v, bool) or v is None:
+                return v
+            if isinstance(v, (int, float)):
+                return v or 1
+            if isinstance(v, Num):
+                return 1.5
+            return None
+        if (isinstance(a, (Lst, Tup, Dct)) or isinstance(b, (Lst, Tup, Dct))) and (shape(a) is not None or a is None) \
+                and (shape(b) is not None or b is None):
+            import operator as _op
+            table = {ast.Add: _op.add, ast.Sub: _op.sub, ast.Mult: _op.mul, ast.Div: _op.truediv, ast.Mod: _op.mod,
+                     ast.Pow: _op.pow, ast.FloorDiv: _op.floordiv, ast.BitOr: _op.or_, ast.BitAnd: _op.and_}
+            f = table.get(type(op))
+            if f is not None:
+                try:
+                    f(shape(a), shape(b))
+                except TypeError as e:
+                    raise AbsRaise("TypeError", self.site, str(e))
+                except Exception:
+                    pass
+        if (isinstance(a, (Node, Rec)) and self._dunder(a, "__add__") is None) or (isinstance(b, (Node, Rec)) and not isinstance(a, (Node, Rec))):
+            if not isinstance(a, Opaque) and not isinstance(b, Opaque):
+                raise AbsRaise("TypeError", self.site, f"unsupported operand type(s) for {type(op).__name__}")
         raise Unsupported(f"binop {type(op).__name__} on {a!r},{b!r} at {self.site}")
 
     def e_Compare(self, e, env):
